@@ -247,11 +247,18 @@ func (a *AudioSampleEntryBox) RemoveEncryption() (*SinfBox, error) {
 	if sinf == nil {
 		return nil, fmt.Errorf("does not have sinf box")
 	}
+	// Remove the sinf box that is returned (the last one added), not just the first sinf child:
+	// an entry may hold more than one sinf box
 	for i := range a.Children {
-		if a.Children[i].Type() == "sinf" {
+		if a.Children[i] == Box(sinf) {
 			a.Children = append(a.Children[:i], a.Children[i+1:]...)
-			a.Sinf = nil
 			break
+		}
+	}
+	a.Sinf = nil
+	for _, ch := range a.Children {
+		if s, ok := ch.(*SinfBox); ok {
+			a.Sinf = s
 		}
 	}
 	a.name = sinf.Frma.DataFormat
